@@ -140,6 +140,10 @@ impl Cfg {
 
 pub const TOPICS: [&str; 3] = ["t0", "t/1", "topic/2"];
 pub const TIGHT_MPS: u32 = 20;
+/// symbolic pads start here: PAD_AT_LIMIT - k sizes the packet to k bytes under the limit
+pub const PAD_SYMBOLIC_MIN: u16 = 0xfff8;
+pub const PAD_AT_LIMIT_MINUS_4: u16 = 0xfffa;
+pub const PAD_AT_LIMIT_MINUS_3: u16 = 0xfffb;
 pub const PAD_AT_LIMIT_MINUS_1: u16 = 0xfffd;
 pub const PAD_AT_LIMIT: u16 = 0xfffe;
 pub const PAD_AT_LIMIT_PLUS_1: u16 = 0xffff;
@@ -187,6 +191,9 @@ pub enum Op {
     /// toggle an automatic-behaviour option while running: 0 auto_pub_response, 1 auto_ping_response,
     /// 2 auto_map_topic_alias_send, 3 auto_replace_topic_alias_send
     SetAuto { which: u8, on: bool },
+    /// transport coalescing: the next frame of the peer shares its buffer with a second frame
+    /// (PUBLISH of the given QoS and id; qos 3 = PINGREQ when the peer is a client)
+    Coalesce { qos: u8, id: u32 },
     Advance { ms: u64 },
     /// the transport is lost; `partial` > 0: the peer's next frame is cut after that many bytes first
     Close { partial: u16 },
@@ -244,6 +251,8 @@ pub struct Solo {
     /// ids the application obtained (acquire/register) and has not yet handed to a send
     pub owned: std::collections::BTreeSet<u32>,
     pub chunk: u16,
+    /// the peer's next frame arrives in one buffer together with a following frame (qos, id)
+    pub coalesce: Option<(u8, u32)>,
     pub now_ms: u64,
     pub deadline: [Option<u64>; 3],
     pub tag: u32,
@@ -273,6 +282,7 @@ impl Solo {
             inbox: vec![],
             owned: Default::default(),
             chunk: 0,
+            coalesce: None,
             now_ms: 0,
             deadline: [None; 3],
             tag: 0,
@@ -387,7 +397,30 @@ impl Solo {
 
     /// the peer transmits a frame; it is delivered to E in buffers per the chunk setting
     fn peer_send(&mut self, p: &Pkt) {
-        let bytes = wire::encode(p, self.w.idw);
+        let mut bytes = wire::encode(p, self.w.idw);
+        if let Some((qos, id)) = self.coalesce.take() {
+            if !self.w.stopped_reading() && !self.cfg.lenient {
+                use wire::*;
+                let v = self.v();
+                let second = if qos == 3 {
+                    if self.acting_client { Pkt::new(v, PINGRESP) } else { Pkt::new(v, PINGREQ) }
+                } else {
+                    let mut q = Pkt::new(v, PUBLISH);
+                    q.qos = qos;
+                    if qos > 0 {
+                        q.id = Some(id);
+                    }
+                    q.topic = TOPICS[0].into();
+                    q.payload = self.payload(0);
+                    if qos == 2 && !self.peer_q2.contains(&id) {
+                        self.peer_q2.push(id);
+                    }
+                    q
+                };
+                bytes.extend_from_slice(&wire::encode(&second, self.w.idw));
+                self.fault("coalesced_frames");
+            }
+        }
         self.peer_bytes(&bytes);
     }
 
@@ -417,7 +450,7 @@ impl Solo {
     fn payload(&mut self, pad: u16) -> Vec<u8> {
         self.tag += 1;
         let mut s = format!("m{}", self.tag).into_bytes();
-        if pad < PAD_AT_LIMIT_MINUS_1 {
+        if pad < PAD_SYMBOLIC_MIN {
             s.extend(std::iter::repeat(b'x').take(pad as usize));
         }
         s
@@ -425,18 +458,14 @@ impl Solo {
 
     /// symbolic pads: size the packet to the limit the receiver announced, or one off
     fn pad_to_limit(&self, p: &mut Pkt, pad: u16, limit: Option<u32>) {
-        if pad < PAD_AT_LIMIT_MINUS_1 {
+        if pad < PAD_SYMBOLIC_MIN {
             return;
         }
         let Some(l) = limit else { return };
-        let want = match pad {
-            PAD_AT_LIMIT => l as i64,
-            PAD_AT_LIMIT_PLUS_1 => l as i64 + 1,
-            _ => l as i64 - 1,
-        };
+        let want = l as i64 + (pad as i64 - PAD_AT_LIMIT as i64);
         let base = wire::encode(p, self.w.idw).len() as i64;
         let extra = want - base;
-        if extra > 0 && extra < 120 {
+        if extra > 0 && extra < 400 {
             p.payload.extend(std::iter::repeat(b'x').take(extra as usize));
         }
     }
@@ -483,6 +512,8 @@ impl Solo {
                 }
                 let fresh = self.w.m.st == St::Disc;
                 let before = self.w.step;
+                // the bookkeeping below belongs to the CONNECT alone: no second frame in its buffer
+                self.coalesce = None;
                 if self.acting_client {
                     let evs = self.app_send(&p);
                     if self.w.lenient && fresh && self.w.ep.version() != 0 && !self.w.failed() && !(evs.iter().any(|e| matches!(e, Ev::Send { pkt, .. } if pkt.kind == CONNECT)) && !evs.iter().any(|e| e.is_error())) {
@@ -497,10 +528,14 @@ impl Solo {
                 if self.w.lenient && fresh && !self.w.failed() {
                     self.w.stats.hit("c05_reconnect_after_adversary");
                 }
-                self.connects += 1;
-                if *clean {
-                    self.peer_q2.clear();
-                    self.owned.clear();
+                // a CONNECT that was refused (e.g. a second one on an established connection)
+                // starts nothing
+                if fresh && self.w.m.st != St::Disc {
+                    self.connects += 1;
+                    if *clean {
+                        self.peer_q2.clear();
+                        self.owned.clear();
+                    }
                 }
             }
             Op::Connack { sp, rc } => {
@@ -851,6 +886,9 @@ impl Solo {
             Op::SetAuto { which, on } => {
                 self.w.set_auto(*which, *on);
             }
+            Op::Coalesce { qos, id } => {
+                self.coalesce = Some((*qos, *id));
+            }
             Op::Advance { ms } => {
                 // idle time never passes an armed deadline without the timer firing first
                 let lim = self.deadline.iter().flatten().min().cloned();
@@ -870,6 +908,12 @@ impl Solo {
                     let mut p = Pkt::new(v, PUBLISH);
                     p.topic = TOPICS[0].into();
                     p.payload = b"partial-frame-cut-off-by-transport-loss".to_vec();
+                    // longer frames: the cut can fall inside a 2- or 3-byte Remaining Length
+                    match *partial % 3 {
+                        1 => p.payload.resize(300, b'x'),
+                        2 => p.payload.resize(20000, b'x'),
+                        _ => {}
+                    }
                     let bytes = wire::encode(&p, self.w.idw);
                     let n = (*partial as usize).min(bytes.len() - 1);
                     self.peer_bytes(&bytes[..n]);
@@ -1298,6 +1342,10 @@ pub fn gen_op(s: &Solo, r: &mut Rng, prof: &GenProfile) -> Op {
         }
         St::Connected => {}
     }
+    // a pending coalesced buffer is most interesting when its first frame ends the connection
+    if s.coalesce.is_some() && cfg.f_wrongack && r.chance(1, 2) {
+        return Op::PeerAck { nth: r.below(8) as u8, how: 2, rc: 0 };
+    }
     let awaiting = m.out.iter().filter(|o| o.stage != Stage::GotPubrec).count() as u32;
     let got = m.out.iter().filter(|o| o.stage == Stage::GotPubrec).count() as u32;
     let inb = s.inbox.len() as u32;
@@ -1332,7 +1380,7 @@ pub fn gen_op(s: &Solo, r: &mut Rng, prof: &GenProfile) -> Op {
             } else if v5 && r.chance(1, 25) {
                 alias = if r.chance(1, 2) { 0x81 } else { 1 };
             }
-            let pad = if m.mps_send.is_some() && r.chance(1, 4) { *r.pick(&[PAD_AT_LIMIT_MINUS_1, PAD_AT_LIMIT, PAD_AT_LIMIT, PAD_AT_LIMIT_PLUS_1]) } else if r.chance(1, 4) { r.below(24) as u16 } else { 0 };
+            let pad = if m.mps_send.is_some() && r.chance(1, 4) { *r.pick(&[PAD_AT_LIMIT_MINUS_4, PAD_AT_LIMIT_MINUS_3, PAD_AT_LIMIT_MINUS_1, PAD_AT_LIMIT, PAD_AT_LIMIT, PAD_AT_LIMIT_PLUS_1]) } else if r.chance(1, 4) { r.below(24) as u16 } else { 0 };
             let fail = cfg.f_writefail && r.chance(1, 30);
             if cfg.f_writefail && qos > 0 && r.chance(1, 40) {
                 return Op::PubFailContinue { qos, topic, reg: *r.pick(&[0u32, 0, 65535, 65534]) };
@@ -1385,10 +1433,14 @@ pub fn gen_op(s: &Solo, r: &mut Rng, prof: &GenProfile) -> Op {
         }
         8 => Op::Close { partial: if r.chance(1, 3) { r.range(1, 20) as u16 } else { 0 } },
         9 => Op::Crash,
-        10 => match r.below(4) {
+        10 => match r.below(6) {
             0 => Op::DisconnectBig,
             1 => Op::ConnectAgain,
             2 if s.acting_client => Op::Connack { sp: r.chance(1, 2), rc: *r.pick(&[0u8, 0x87]) },
+            // the peer says goodbye (and may, against the rules, go on talking on the same transport)
+            3 => Op::PeerSimple { kind: DISCONNECT },
+            // a second CONNECT of the peer on the established connection
+            4 if !s.acting_client => Op::Connect { clean: r.chance(1, 2) },
             _ => Op::Disconnect { rc: if r.chance(1, 2) { 0 } else { 0x04 } },
         },
         11 => Op::Erase { nth: r.below(4) as u8 },
@@ -1398,6 +1450,8 @@ pub fn gen_op(s: &Solo, r: &mut Rng, prof: &GenProfile) -> Op {
                     Op::SetPingresp { ms: *r.pick(&[0u64, 0, 2000, 5000]) }
                 } else if r.chance(1, 3) {
                     Op::SetAuto { which: r.below(4) as u8, on: r.chance(1, 2) }
+                } else if r.chance(1, 2) {
+                    Op::Coalesce { qos: *r.pick(&[0u8, 1, 1, 2, 3]), id: r.range(1, 4) as u32 }
                 } else {
                     Op::SetPing { ms: *r.pick(&[None, Some(0), Some(3000), Some(7000)]) }
                 }
